@@ -16,6 +16,7 @@ package presence
 
 import (
 	"context"
+	bin "encoding/binary"
 	"time"
 
 	"github.com/emitter-io/emitter/internal/message"
@@ -80,8 +81,13 @@ func (s *Service) OnSurvey(queryType string, payload []byte) ([]byte, bool) {
 		return nil, false
 	}
 
-	// Decode the request
+	// Decode the request, unless it announces more words than it carries (every word takes at
+	// least one byte, and the decoder allocates what is announced before it reads the words)
 	var target message.Ssid
+	if words, n := bin.Uvarint(payload); n <= 0 || words > uint64(len(payload)-n) {
+		return nil, false
+	}
+
 	if err := binary.Unmarshal(payload, &target); err != nil {
 		return nil, false
 	}
